@@ -141,6 +141,11 @@ var errCliConnWrite = fmt.Errorf("scripted conn: no buffer space available")
 
 var errCliConnClose = fmt.Errorf("scripted conn: close reports an I/O error")
 
+var errCliConnRead = fmt.Errorf("scripted conn: read: connection refused")
+
+// cliReadErrMarker: injected like a datagram, it makes the ReadFrom that takes it fail.
+var cliReadErrMarker = []byte("read-error-marker")
+
 func cli_newScriptConn(now func() int64) *cliScriptConn {
 	return &cliScriptConn{now: now, in: make(chan []byte, 4096), closed: make(chan struct{}), enter: make(chan int, 1<<16), failWrite: -1}
 }
@@ -158,6 +163,11 @@ func (c *cliScriptConn) ReadFrom(b []byte) (int, net.Addr, error) {
 		c.mu.Lock()
 		c.reads++
 		c.mu.Unlock()
+		if len(p) == len(cliReadErrMarker) && &p[0] == &cliReadErrMarker[0] {
+			// a transient read error on the open socket (ECONNREFUSED after an ICMP port
+			// unreachable on a unicast socket, ENETDOWN, ...)
+			return 0, nil, errCliConnRead
+		}
 		return copy(b, p), &net.UDPAddr{IP: net.IPv4(192, 0, 2, 1), Port: 67}, nil
 	case <-c.closed:
 		return 0, nil, net.ErrClosed
